@@ -44,6 +44,25 @@ class Contract:
     self_ann: str | None = None
     abstract_for: list = field(default_factory=list) # other targets this contract also applies to (overrides)
     line: int = 0
+    is_lemma: bool = False
+
+
+def const_eval(node, mi):
+    """Literal evaluation of contract metadata, with references to module-level constants and '+'."""
+    if isinstance(node, ast.Constant):
+        return node.value
+    if isinstance(node, (ast.List, ast.Tuple, ast.Set)):
+        vals = [const_eval(e, mi) for e in node.elts]
+        return vals if isinstance(node, ast.List) else (tuple(vals) if isinstance(node, ast.Tuple) else set(vals))
+    if isinstance(node, ast.Dict):
+        return {const_eval(k, mi): const_eval(v, mi) for k, v in zip(node.keys, node.values)}
+    if isinstance(node, ast.BinOp) and isinstance(node.op, ast.Add):
+        return const_eval(node.left, mi) + const_eval(node.right, mi)
+    if isinstance(node, ast.Name) and node.id in mi.defs and isinstance(mi.defs[node.id], ast.Assign):
+        return const_eval(mi.defs[node.id].value, mi)
+    if isinstance(node, ast.UnaryOp) and isinstance(node.op, ast.USub):
+        return -const_eval(node.operand, mi)
+    raise ValueError(f"contract metadata is not a constant: {ast.unparse(node)}")
 
 
 class Registry:
@@ -60,6 +79,19 @@ class Registry:
         mi = self.src.module(modname)
         self.spec_mods.append(modname)
         for st in mi.tree.body:
+            if isinstance(st, ast.FunctionDef):
+                for d in st.decorator_list:
+                    if isinstance(d, ast.Call) and isinstance(d.func, ast.Name) and d.func.id == "lemma":
+                        kw = {k.arg: const_eval(k.value, mi) for k in d.keywords}
+                        c = Contract(f"{modname}:{st.name}", st.name, modname, kw.get("props", []), line=st.lineno)
+                        c.params = kw.get("params", {})
+                        c.inline = kw.get("inline", [])
+                        c.modifies = kw.get("modifies", ["*"])
+                        c.raises = None if kw.get("may_raise") else ()
+                        c.is_lemma = True
+                        self.contracts[c.target] = c
+                        self.order.append(c)
+                continue
             if not isinstance(st, ast.ClassDef):
                 continue
             dec = None
@@ -69,14 +101,14 @@ class Registry:
             if dec is None:
                 continue
             target = dec.args[0].value
-            kw = {k.arg: ast.literal_eval(k.value) for k in dec.keywords}
+            kw = {k.arg: const_eval(k.value, mi) for k in dec.keywords}
             props = kw.get("props") or ([kw["prop"]] if "prop" in kw else [])
             c = Contract(target, st.name, modname, props, line=st.lineno)
             c.verify = kw.get("verify", True)
             for b in st.body:
                 if isinstance(b, ast.Assign) and isinstance(b.targets[0], ast.Name):
                     n = b.targets[0].id
-                    val = ast.literal_eval(b.value)
+                    val = const_eval(b.value, mi)
                     if n == "params":
                         c.params = val
                     elif n == "modifies":
@@ -102,7 +134,7 @@ class Registry:
                     known = []
                     for d in b.decorator_list:
                         if isinstance(d, ast.Call) and isinstance(d.func, ast.Name) and d.func.id == "clause":
-                            kk = {k.arg: ast.literal_eval(k.value) for k in d.keywords}
+                            kk = {k.arg: const_eval(k.value, mi) for k in d.keywords}
                             cprops = kk.get("props", cprops)
                             known = kk.get("known", [])
                     if b.name.startswith("requires"):
@@ -199,7 +231,7 @@ def make_symbolic(ctx, path, name, ann, mi=None):
     if k == "tuple":
         return Val(V.VTuple(ctx.new(name, smt.SeqV)), ann, own="borrow" if ann_mutable(ann) else "imm")
     if k in ("set", "frozenset"):
-        return Val(V.VSet(ctx.new(name + "_sid", smt.IntS)), ann, own="borrow" if k == "set" else "imm")
+        return Val(V.VSet(ctx.new(name + "_sid", smt.IntS), z3.BoolVal(k == "frozenset")), ann, own="borrow" if k == "set" else "imm")
     if k == "dict":
         return Val(V.VDict(ctx.new(name + "_did", smt.IntS)), ann, own="borrow")
     if k == "rec":
@@ -347,6 +379,19 @@ def call_spec(ctx, fr, path, f: FuncRef, args, kwargs, node=None):
             pass  # unfold below
         else:
             vs = [ctx.toV(a) for a in args] + [ctx.toV(v) for _, v in sorted(kwargs.items())]
+            # declared left inverse: F(G(x)) rewrites to x
+            for d in f.node.decorator_list:
+                if isinstance(d, ast.Call):
+                    for kw in d.keywords:
+                        if kw.arg == "inverse_of" and len(vs) == 1:
+                            t0 = simp(vs[0].t)
+                            if z3.is_app(t0) and t0.decl().name() == "SPEC_" + kw.value.value and t0.num_args() == 1:
+                                rann = None
+                                for kw2 in d.keywords:
+                                    if kw2.arg == "ann":
+                                        rann = parse_ann_text(ctx, kw2.value.value, f.mi)
+                                yield path, Val(t0.arg(0), rann, own="borrow")
+                                return
             ret = "V"
             for d in f.node.decorator_list:
                 if isinstance(d, ast.Call):
@@ -372,7 +417,25 @@ def call_spec(ctx, fr, path, f: FuncRef, args, kwargs, node=None):
                 fct = ann_fact(t, rann, ctx.ct)
                 if fct is not None:
                     path.assume(fct)
-                yield path, Val(t, rann, own="fresh")
+                rv = Val(t, rann, own="fresh")
+                # declared postcondition of the spec function (itself proved by a lemma in the sidecar)
+                for d in f.node.decorator_list:
+                    if isinstance(d, ast.Call):
+                        for kw in d.keywords:
+                            if kw.arg == "post":
+                                pf = ctx.global_lookup(f.mi, kw.value.value, path)
+                                base = path.fork()
+                                npc, nf = len(base.pc), len(base.facts)
+                                ctx.spec_mode += 1
+                                try:
+                                    outs = list(call_spec(ctx, Frame(f.mi, spec=True), base, pf, vs + [rv], {}, node))
+                                finally:
+                                    ctx.spec_mode -= 1
+                                alts = []
+                                for q, v in outs:
+                                    alts.append(z3.And(*(q.pc[npc:] + q.facts[nf:] + [ctx.truthy(q, v)])))
+                                path.assume(z3.Or(alts) if alts else z3.BoolVal(False), f"post of spec function {name}")
+                yield path, rv
             return
     env = bind_params(ctx, fr, path, f.node, args, kwargs, f.mi, None)
     ctx.spec_mode += 1
@@ -531,7 +594,7 @@ def _fresh_result(ctx, path, f, contract, env):
         for m in contract.modifies + contract.reads:
             parts = m.split(".")
             if parts[0] == "self" and len(parts) == 2:
-                vs.append(z3.Select(ctx.heap_arr(path, parts[1]), V.oid(selfv.t)))
+                vs.append(ctx._select(path, parts[1], V.oid(selfv.t)))
     fn = ctx.func(f"RES_{contract.target}", *([V] * len(vs)), V)
     t = fn(*vs) if vs else z3.Const(f"RES_{contract.target}", V)
     return Val(t, None, own="fresh")
